@@ -27,8 +27,11 @@
 #ifndef REHASH_BOOST_PART
 #include <cds/container/michael_list_hp.h>
 #include <cds/container/lazy_list_hp.h>
+#include <cds/container/michael_kvlist_hp.h>
 #include <cds/container/split_list_set.h>
+#include <cds/container/split_list_map.h>
 #include <cds/container/feldman_hashset_hp.h>
+#include <cds/container/feldman_hashmap_hp.h>
 #endif
 
 using namespace mh;
@@ -165,13 +168,196 @@ namespace {
     typedef cc::SplitListSet<HP, Item, sl_michael> SplitMichael;
     typedef cc::SplitListSet<HP, Item, sl_lazy> SplitLazy;
 
+    // access to the protected bucket-count exponent (evidence: how often the table doubled)
+    template <typename Base>
+    struct SplitGrowth : Base {
+        SplitGrowth( size_t nItemCount, size_t nLoadFactor ) : Base( nItemCount, nLoadFactor ) {}
+        size_t log2_buckets() { return this->m_nBucketCountLog2.load( atomics::memory_order_relaxed ); }
+    };
+    template <typename Ad>
+    struct SplitAd : Ad {
+        template <typename... A>
+        explicit SplitAd( A&&... a ) : Ad( std::forward<A>( a )... ) {}
+        ~SplitAd() override
+        {
+            size_t l = this->s.log2_buckets();
+            if ( l > 1 ) {
+                note_class( "resized", l - 1 );
+                note_class( "cases_resized" );
+            }
+        }
+    };
+
     template <typename Set>
     AdapterBase* mk_split( Case const& c )
     {
         Params p = params() = decode_params( c, CK_OTHER );
         // the bucket table may grow up to nItemCount / nLoadFactor buckets, it starts with 2 (dynamic bucket table)
         size_t items = size_t( 8 ) << ( cfg_at( c, CF_INIT, 0 ) & 3 );      // 8..64
-        return new GuardedSetAdapter<Set, false>( c, items, p.rt_policy );
+        return new SplitAd<GuardedSetAdapter<SplitGrowth<Set>, false>>( c, items, p.rt_policy );
+    }
+
+    // ---- maps with the guarded_ptr API: SplitListMap (update keeps the item), FeldmanHashMap (update replaces it) ---------
+    template <typename Map, bool Replaces>
+    struct GuardedMapAdapter : AdapterBase {
+        typedef typename Map::value_type pair_type;
+        Map s;
+        int hold;
+        template <typename... A>
+        explicit GuardedMapAdapter( Case const& c, A&&... a ) : s( std::forward<A>( a )... ), hold( cfg_at( c, 2, 0 )) {}
+        bool supports( int op ) const override { return op != O_UNLINK && op != O_EXTRACT_MIN && op != O_EXTRACT_MAX; }
+        bool update_replaces() const override { return Replaces; }
+        Res apply( int op, int key, int tag ) override
+        {
+            Res r;
+            switch ( op ) {
+            case O_INSERT:
+                if ( tag & 1 ) {
+                    pending_tag() = tag;
+                    r.r = s.insert( key ) ? 1 : 0;
+                    pending_tag() = -1;
+                }
+                else
+                    r.r = s.insert( key, MVal( tag )) ? 1 : 0;
+                break;
+            case O_INSERT_F: {
+                int calls = 0;
+                r.r = s.insert_with( key, [&]( pair_type& pr ) { ++calls; pr.second.tag = tag; r.key = pr.first; } ) ? 1 : 0;
+                r.fcalls = calls;
+                break;
+            }
+            case O_UPDATE:
+            case O_UPDATE_NOINS: {
+                int calls = 0;
+                std::pair<bool, bool> x;
+                if constexpr ( Replaces ) {
+                    x = s.update( key, [&]( pair_type& cur, pair_type* old ) {
+                        ++calls;
+                        cur.second.tag = tag;
+                        r.fnew = old ? 0 : 1;
+                        r.tag = old ? old->second.tag : tag;
+                        r.key = cur.first;
+                    }, op == O_UPDATE );
+                }
+                else {
+                    x = s.update( key, [&]( bool bNew, pair_type& pr ) {
+                        ++calls;
+                        if ( bNew )
+                            pr.second.tag = tag;
+                        r.fnew = bNew ? 1 : 0;
+                        r.tag = pr.second.tag;
+                        r.key = pr.first;
+                    }, op == O_UPDATE );
+                }
+                r.fcalls = calls;
+                r.r = !x.first ? 0 : x.second ? 2 : 1;
+                if ( r.r == 2 )
+                    r.tag = tag;
+                break;
+            }
+            case O_EMPLACE:
+                r.r = s.emplace( key, tag ) ? 1 : 0;
+                break;
+            case O_ERASE:
+                r.r = s.erase( key ) ? 1 : 0;
+                break;
+            case O_ERASE_F: {
+                int calls = 0;
+                r.r = s.erase( key, [&]( pair_type& pr ) { ++calls; r.tag = pr.second.tag; r.key = pr.first; } ) ? 1 : 0;
+                r.fcalls = calls;
+                break;
+            }
+            case O_EXTRACT: {
+                typename Map::guarded_ptr gp( s.extract( key ));
+                if ( gp ) {
+                    r.r = 1;
+                    r.tag = gp->second.tag;
+                    r.key = gp->first;
+                    hold_and_check( &gp->second, hold );
+                }
+                break;
+            }
+            case O_GET: {
+                typename Map::guarded_ptr gp( s.get( key ));
+                if ( gp ) {
+                    r.r = 1;
+                    r.tag = gp->second.tag;
+                    r.key = gp->first;
+                    hold_and_check( &gp->second, hold );
+                }
+                break;
+            }
+            case O_FIND_F: {
+                int calls = 0;
+                r.r = s.find( key, [&]( pair_type& pr ) { ++calls; r.tag = pr.second.tag; r.key = pr.first; } ) ? 1 : 0;
+                r.fcalls = calls;
+                break;
+            }
+            case O_CONTAINS:
+                r.r = s.contains( key ) ? 1 : 0;
+                break;
+            default:
+                r.unsupported = true;
+                break;
+            }
+            return r;
+        }
+        bool has_counter() const override { return true; }
+        size_t size() const override { return s.size(); }
+        bool empty() const override { return s.empty(); }
+        bool traverse( std::vector<int>& keys ) override
+        {
+            for ( auto it = s.begin(); it != s.end(); ++it )
+                keys.push_back( it->first );
+            return true;
+        }
+        void scan() override { HP::scan(); }
+    };
+
+    struct slm_michael : cc::split_list::traits {
+        typedef cc::michael_list_tag ordered_list;
+        typedef LhHash<0> hash;
+        typedef cds::atomicity::item_counter item_counter;
+        struct ordered_list_traits : cc::michael_list::traits {
+            typedef std::less<int> less;
+        };
+    };
+    typedef cc::SplitListMap<HP, int, MVal, slm_michael> SplitMapMichael;
+    AdapterBase* mk_split_map( Case const& c )
+    {
+        Params p = params() = decode_params( c, CK_OTHER );
+        size_t items = size_t( 8 ) << ( cfg_at( c, CF_INIT, 0 ) & 3 );
+        return new SplitAd<GuardedMapAdapter<SplitGrowth<SplitMapMichael>, false>>( c, items, p.rt_policy );
+    }
+
+    struct feldman_map_traits : cc::feldman_hashmap::traits {
+        typedef LhHash<0> hash;
+        typedef cds::atomicity::item_counter item_counter;
+    };
+    typedef cc::FeldmanHashMap<HP, int, MVal, feldman_map_traits> FeldmanMap;
+
+    // number of array nodes below the head array = how often a slot was expanded (evidence)
+    template <typename S>
+    void note_feldman_growth( S& s )
+    {
+        std::vector<cds::intrusive::feldman_hashset::level_statistics> ls;
+        s.get_level_statistics( ls );
+        size_t n = 0;
+        for ( size_t i = 1; i < ls.size(); ++i )
+            n += ls[i].array_node_count;
+        if ( n ) {
+            note_class( "resized", n );
+            note_class( "cases_resized" );
+        }
+    }
+    struct FeldmanMapAd : GuardedMapAdapter<FeldmanMap, true> {
+        FeldmanMapAd( Case const& c, size_t hb, size_t ab ) : GuardedMapAdapter<FeldmanMap, true>( c, hb, ab ) {}
+        ~FeldmanMapAd() override { note_feldman_growth( this->s ); }
+    };
+    AdapterBase* mk_feldman_map( Case const& c )
+    {
+        params() = decode_params( c, CK_STRIPED_THRESHOLD );    // injective hashes only: the hash is the key
+        return new FeldmanMapAd( c, size_t( 4 + ( cfg_at( c, CF_INIT, 0 ) & 1 )), size_t( 2 + ( cfg_at( c, CF_PROBE, 0 ) & 1 )));
     }
 
     struct FItem : Item {
@@ -192,6 +378,7 @@ namespace {
         FeldmanSet s;
         int hold;
         FeldmanAdapter( Case const& c, size_t head_bits, size_t array_bits ) : s( head_bits, array_bits ), hold( cfg_at( c, 2, 0 )) {}
+        ~FeldmanAdapter() override { note_feldman_growth( s ); }
         static size_t H( int key ) { return params().h[0].eval( key ); }
         bool supports( int op ) const override { return op != O_UNLINK && op != O_EXTRACT_MIN && op != O_EXTRACT_MAX; }
         bool update_replaces() const override { return true; }
@@ -326,7 +513,9 @@ namespace {
         // SplitListSet / FeldmanHashSet
         { "SplitListSet_michael_HP", GC_HP, SplitMichael::c_nHazardPtrCount, &mk_split<SplitMichael>, false },
         { "SplitListSet_lazy_HP", GC_HP, SplitLazy::c_nHazardPtrCount, &mk_split<SplitLazy>, false },
+        { "SplitListMap_michael_HP", GC_HP, SplitMapMichael::c_nHazardPtrCount, &mk_split_map, false },
         { "FeldmanHashSet_HP", GC_HP, FeldmanSet::c_nHazardPtrCount, &mk_feldman, false },
+        { "FeldmanHashMap_HP", GC_HP, FeldmanMap::c_nHazardPtrCount, &mk_feldman_map, false },
 #else
         RH_V( "StripedSet_boost_slist_less_striping_LF1", mk_striped_set<B_b_slist, RP_LF1, MX_S, O_LESS> )
         RH_V( "StripedSet_boost_list_cmp_refinable_T1_move", mk_striped_set<B_b_list, RP_T1, MX_R, O_CMP, O_MOVE> )
